@@ -126,6 +126,7 @@ static void               vrand(unsigned char *buf, size_t len)
 
 /* ------------------------------------------------------------------ virtual sockets */
 #define FD_BASE 100
+static int req_sort = 0; /* getaddrinfo without ARES_AI_NOSORT: RFC 6724 sorting probes source addresses with sockets */
 #define MAXVS   512
 #define MAXRX   64
 typedef struct {
@@ -150,6 +151,35 @@ typedef struct {
 } vsock_t;
 static vsock_t vs[MAXVS];
 static int     nvs = 0;
+/* Descriptor numbers.  Events, ops and the model name a socket by its logical id FD_BASE + slot, which is never
+ * reused.  With `fdreuse=1` on the chan line the number handed to the library is instead the lowest number not
+ * currently open (what POSIX does), so a closed connection's number comes back for the next socket; the layer
+ * translates at the boundary.  A correct library behaves identically under both numberings. */
+static int fdreuse = 0;
+static int slot_real[MAXVS];  /* number the library knows slot i by */
+static int real_slot[MAXVS];  /* slot currently open under number FD_BASE + k, or -1 */
+static int to_logical(ares_socket_t real)
+{
+  int k = (int)real - FD_BASE;
+  if (!fdreuse) {
+    return (int)real;
+  }
+  if (k < 0 || k >= MAXVS || real_slot[k] < 0) {
+    return -1;
+  }
+  return FD_BASE + real_slot[k];
+}
+static ares_socket_t to_real(int logical)
+{
+  int i = logical - FD_BASE;
+  if (!fdreuse || i < 0 || i >= nvs) {
+    return (ares_socket_t)logical;
+  }
+  if (!vs[i].open) {
+    return (ares_socket_t)(FD_BASE + MAXVS + i); /* a number the library has never seen */
+  }
+  return (ares_socket_t)slot_real[i];
+}
 
 typedef struct {
   char name[16];
@@ -275,21 +305,34 @@ static ares_socket_t v_socket(int af, int type, int protocol, void *ud)
     npending_wl = 0;
   }
   ev("sock(%d,%s,%d)", FD_BASE + nvs, s->tcp ? "tcp" : "udp", af == AF_INET6 ? 6 : 4);
-  return (ares_socket_t)(FD_BASE + nvs++);
+  {
+    int k = nvs;
+    if (fdreuse) {
+      for (k = 0; k < MAXVS && real_slot[k] >= 0; k++) {
+      }
+    }
+    slot_real[nvs] = FD_BASE + k;
+    real_slot[k]   = nvs;
+    nvs++;
+    return (ares_socket_t)(FD_BASE + k);
+  }
 }
-static int v_close(ares_socket_t fd, void *ud)
+static int v_close(ares_socket_t rfd_, void *ud)
 {
+  ares_socket_t fd = (ares_socket_t)to_logical(rfd_);
   vsock_t *s = vget(fd, "close");
   (void)ud;
   if (s == NULL) {
     return -1;
   }
   s->open = 0;
+  real_slot[slot_real[(int)fd - FD_BASE] - FD_BASE] = -1;
   ev("close(%d)", (int)fd);
   return 0;
 }
-static int v_setsockopt(ares_socket_t fd, ares_socket_opt_t opt, const void *val, ares_socklen_t len, void *ud)
+static int v_setsockopt(ares_socket_t rfd_, ares_socket_opt_t opt, const void *val, ares_socklen_t len, void *ud)
 {
+  ares_socket_t fd = (ares_socket_t)to_logical(rfd_);
   vsock_t *s = vget(fd, "setsockopt");
   (void)val;
   (void)len;
@@ -327,8 +370,9 @@ static void fmt_sa(const struct sockaddr *sa, char *out, size_t olen, unsigned s
     *port = ntohs(s6->sin6_port);
   }
 }
-static int v_connect(ares_socket_t fd, const struct sockaddr *sa, ares_socklen_t salen, unsigned int flags, void *ud)
+static int v_connect(ares_socket_t rfd_, const struct sockaddr *sa, ares_socklen_t salen, unsigned int flags, void *ud)
 {
+  ares_socket_t fd = (ares_socket_t)to_logical(rfd_);
   vsock_t *s = vget(fd, "connect");
   (void)salen;
   (void)flags;
@@ -350,9 +394,10 @@ static int v_connect(ares_socket_t fd, const struct sockaddr *sa, ares_socklen_t
   }
   return 0;
 }
-static ares_ssize_t v_recvfrom(ares_socket_t fd, void *buf, size_t len, int flags, struct sockaddr *from,
+static ares_ssize_t v_recvfrom(ares_socket_t rfd_, void *buf, size_t len, int flags, struct sockaddr *from,
                                ares_socklen_t *fromlen, void *ud)
 {
+  ares_socket_t fd = (ares_socket_t)to_logical(rfd_);
   vsock_t *s = vget(fd, "recvfrom");
   (void)flags;
   (void)ud;
@@ -425,9 +470,10 @@ static ares_ssize_t v_recvfrom(ares_socket_t fd, void *buf, size_t len, int flag
     return (ares_ssize_t)n;
   }
 }
-static ares_ssize_t v_sendto(ares_socket_t fd, const void *buf, size_t len, int flags, const struct sockaddr *to,
+static ares_ssize_t v_sendto(ares_socket_t rfd_, const void *buf, size_t len, int flags, const struct sockaddr *to,
                              ares_socklen_t tolen, void *ud)
 {
+  ares_socket_t fd = (ares_socket_t)to_logical(rfd_);
   vsock_t *s = vget(fd, "sendto");
   (void)flags;
   (void)to;
@@ -476,8 +522,9 @@ static ares_ssize_t v_sendto(ares_socket_t fd, const void *buf, size_t len, int 
   }
 }
 static int self_variant = 0; /* changes the local address reported by getsockname */
-static int v_getsockname(ares_socket_t fd, struct sockaddr *sa, ares_socklen_t *salen, void *ud)
+static int v_getsockname(ares_socket_t rfd_, struct sockaddr *sa, ares_socklen_t *salen, void *ud)
 {
+  ares_socket_t fd = (ares_socket_t)to_logical(rfd_);
   vsock_t *s = vget(fd, "getsockname");
   (void)ud;
   if (s == NULL) {
@@ -504,8 +551,9 @@ static int v_getsockname(ares_socket_t fd, struct sockaddr *sa, ares_socklen_t *
   }
   return 0;
 }
-static int v_bind(ares_socket_t fd, unsigned int flags, const struct sockaddr *sa, socklen_t salen, void *ud)
+static int v_bind(ares_socket_t rfd_, unsigned int flags, const struct sockaddr *sa, socklen_t salen, void *ud)
 {
+  ares_socket_t fd = (ares_socket_t)to_logical(rfd_);
   vsock_t *s = vget(fd, "bind");
   (void)flags;
   (void)sa;
@@ -535,9 +583,10 @@ static const struct ares_socket_functions_ex vfuncs = { 1,
                                                         NULL,
                                                         NULL };
 
-static void sock_state_cb(void *data, ares_socket_t fd, int r, int w)
+static void sock_state_cb(void *data, ares_socket_t rfd_, int r, int w)
 {
-  int i = (int)fd - FD_BASE;
+  ares_socket_t fd = (ares_socket_t)to_logical(rfd_);
+  int           i  = (int)fd - FD_BASE;
   (void)data;
   ev("st(%d,%d,%d)", (int)fd, r, w);
   if (i >= 0 && i < nvs) {
@@ -800,7 +849,7 @@ static void do_req(int tok, const char *kind, const char *name, int type, int cl
     struct ares_addrinfo_hints hints;
     memset(&hints, 0, sizeof(hints));
     hints.ai_family = fam;
-    hints.ai_flags  = ARES_AI_NOSORT | ARES_AI_CANONNAME;
+    hints.ai_flags  = (req_sort ? 0 : ARES_AI_NOSORT) | ARES_AI_CANONNAME;
     ares_getaddrinfo(chan, name, "53", &hints, cb_addrinfo, r);
     ev("ret(%d,ok)", tok);
   } else if (!strcmp(kind, "ghbn")) {
@@ -878,6 +927,13 @@ static void teardown(void)
   }
   memset(vs, 0, sizeof(vs));
   nvs = ntx = nfaults = npending_wl = 0;
+  fdreuse = 0;
+  {
+    int k;
+    for (k = 0; k < MAXVS; k++) {
+      real_slot[k] = -1;
+    }
+  }
   memset(reqs, 0, sizeof(reqs));
   memset(reactions, 0, sizeof(reactions));
   destroyed = 0;
@@ -904,7 +960,7 @@ static void tail(void)
     for (i = 0; i < ARES_GETSOCK_MAXNUM; i++) {
       int r = (((unsigned)bits) >> i) & 1u, w = (((unsigned)bits) >> (i + 16)) & 1u;
       if (r || w) {
-        k += (size_t)snprintf(fds + k, sizeof(fds) - k, "%s%d:%s%s", k ? "," : "", (int)socks[i], r ? "r" : "", w ? "w" : "");
+        k += (size_t)snprintf(fds + k, sizeof(fds) - k, "%s%d:%s%s", k ? "," : "", to_logical(socks[i]), r ? "r" : "", w ? "w" : "");
       }
     }
     if (tvp) {
@@ -1245,6 +1301,7 @@ int main(void)
       teardown();
       memset(&o, 0, sizeof(o));
       o.flags = (int)argi(nt, t, "flags", 0);
+      fdreuse = (int)argi(nt, t, "fdreuse", 0);
       mask |= ARES_OPT_FLAGS;
       o.timeout = (int)argi(nt, t, "timeout", 2000);
       mask |= ARES_OPT_TIMEOUTMS;
@@ -1342,6 +1399,7 @@ int main(void)
     alloc_armed = (strcmp(op, "reply") != 0 && strcmp(op, "raw") != 0);
     cur_op      = op;
     if (!strcmp(op, "req")) {
+      req_sort = (int)argi(nt, t, "sort", 0);
       do_req((int)argi(nt, t, "tok", 0), arg(nt, t, "kind", "send"), arg(nt, t, "name", "www.example.com"),
              (int)argi(nt, t, "type", 1), (int)argi(nt, t, "class", 1), (int)argi(nt, t, "edns", 0),
              arg(nt, t, "react", ""), (int)argi(nt, t, "fam", AF_INET));
@@ -1418,6 +1476,12 @@ int main(void)
       if (arg(nt, t, "wfd", NULL)) {
         wfd = (ares_socket_t)argi(nt, t, "wfd", -1);
       }
+      if (rfd != ARES_SOCKET_BAD) {
+        rfd = to_real((int)rfd);
+      }
+      if (wfd != ARES_SOCKET_BAD) {
+        wfd = to_real((int)wfd);
+      }
       ares_process_fd(chan, rfd, wfd);
     } else if (!strcmp(op, "procall")) {
       /* everything that has pending input becomes readable; sockets announced writable become writable */
@@ -1437,7 +1501,7 @@ int main(void)
           e |= ARES_FD_EVENT_WRITE;
         }
         if (e) {
-          evs[n].fd     = (ares_socket_t)(FD_BASE + i);
+          evs[n].fd     = to_real(FD_BASE + i);
           evs[n].events = e;
           n++;
         }
